@@ -13,11 +13,15 @@
      * "the body does not run and the call raises" (`C03_args_guard_partial`) is proved for EVERY value of the call - explicit
        keyword, omitted-but-defaulted, *args element, **kwargs value, and a positional value bound to a named parameter whether or
        not it has a default ("whichever parameter position": `c03_values_bad`) - for every signature CPython can build, positional-
-       only parameters included (`sig_ok`), since /repo f0d33a4 / b2616e5 (FunctionCall._check_type_param walks the parameters in
+       only parameters included (`sig_ok`), in which no parameter other than the receiver is called `self` (`no_self_param`, an
+       explicit hypothesis: FunctionCall drops every parameter of that name from the ones it checks -
+       `C03_parameter_named_self_refuted`), since /repo f0d33a4 / b2616e5 (FunctionCall._check_type_param walks the parameters in
        lock-step with CPython's binding: Proofs/PedanticPos.v `lockstep`).  Guards: the receiver is described over ground-truth
        fields (`recv_fine`: the wrapper gets exactly the receiver the undecorated callable gets - a method with its receiver, a
        function / static method, a bound class method - or, for static and class methods reached through an instance, the keyword
-       discipline applies), and the call is outside the K4 region (`not_stripped`: a single positional value stripped as if it were
+       discipline applies; outside `recv_fine` the receiver the wrapper gets is not counted by the first pass and is taken for the
+       first positional value: `C03_hidden_method_receiver_refuted`, `C03_static_through_instance_refuted`), and the call is
+       outside the K4 region (`not_stripped`: a single positional value stripped as if it were
        the receiver; refuted inside: `C03_first_positional_stripped_refuted`).  On the K10 call `self=...` the description does
        not apply, the conclusion holds there all the same: `C03_self_by_keyword_refuted` shows (Raise IndexError, []).
      * "what is raised is PedanticTypeCheckException" is FALSE in five regions where another exception
@@ -44,10 +48,10 @@ Print Assumptions C03_cfg_good.
 (* if the checker rejects a value of the call (whatever TypeVar bindings it is given), the call raises and the
    journal of the body is empty.  `all_values f c b` = supplied_of ++ positional_values, read off CPython's own binding b. *)
 Theorem C03_args_guard_relative_partial : forall pc check consumes f c bd b a v,
-  pc_good pc = true -> sig_ok f = true -> recv_fine pc f c -> twin_binding f c = Ok b -> not_stripped pc f c ->
+  pc_good pc = true -> sig_ok f = true -> no_self_param f = true -> recv_fine pc f c -> twin_binding f c = Ok b -> not_stripped pc f c ->
   In (Some a, v) (all_values f c b) -> rejected check a v ->
   snd (run pc check consumes f c bd) = [] /\ exists e, fst (run pc check consumes f c bd) = Raise e.
-Proof. intros. eapply guard; eassumption. Qed.
+Proof. intros. eapply guard; try eassumption. now apply sig_full_of. Qed.
 Print Assumptions C03_args_guard_relative_partial.
 
 (* `model_binding pc f c` is the binding with which run invokes the body: the hypothesis only speaks about what the body does
@@ -62,10 +66,10 @@ Print Assumptions C03_result_guard_relative.
 (* ---------------- generator functions ---------------- *)
 (* calling the generator function: a rejected supplied value => no generator object, nothing ran *)
 Theorem C03_generator_call_guard_relative_partial : forall pc check consumes f c b a v,
-  pc_good pc = true -> sig_ok f = true -> recv_fine pc f c -> twin_binding f c = Ok b -> not_stripped pc f c ->
+  pc_good pc = true -> sig_ok f = true -> no_self_param f = true -> recv_fine pc f c -> twin_binding f c = Ok b -> not_stripped pc f c ->
   In (Some a, v) (all_values f c b) -> rejected check a v ->
   snd (run_gen pc check consumes f c) = [] /\ exists e, fst (run_gen pc check consumes f c) = Raise e.
-Proof. intros. eapply guard_gen; eassumption. Qed.
+Proof. intros. eapply guard_gen; try eassumption. now apply sig_full_of. Qed.
 Print Assumptions C03_generator_call_guard_relative_partial.
 
 (* iterating: for EVERY generator body, every yield / send / return type and every sequence of next / send / close
@@ -129,13 +133,13 @@ Section Relative.
   (* C03, first sentence: for every callable whose signature CPython can build (sig_ok), every call, every
      body: a non-conforming value => the call raises, the body has not run *)
   Theorem C03_args_guard_partial : forall pc consumes f c bd,
-    pc_good pc = true -> sig_ok f = true -> recv_fine pc f c -> not_stripped pc f c ->
+    pc_good pc = true -> sig_ok f = true -> no_self_param f = true -> recv_fine pc f c -> not_stripped pc f c ->
     c03_values_bad ctx f c = true ->
     snd (run pc check consumes f c bd) = [] /\ exists e, fst (run pc check consumes f c bd) = Raise e.
   Proof.
-    intros pc consumes f c bd G Hsig Hrf Hns H.
+    intros pc consumes f c bd G Hsig Hnself Hrf Hns H.
     destruct (values_bad_in f c H) as [b [a [v [Eb [Hin [_ Hrej]]]]]].
-    eapply guard; eassumption.
+    eapply guard; try eassumption. now apply sig_full_of.
   Qed.
 
   (* ... and the exception is PedanticTypeCheckException, provided the call obeys the keyword discipline
@@ -143,7 +147,7 @@ Section Relative.
      three escapes is taken: `self` passed by keyword (K10), '@staticmethod' in the text of a module-level
      function (K2); (a var-positional parameter not spelled *args makes the discipline test fail: K2) *)
   Theorem C03_args_guard_exact_partial : forall pc consumes f c bd,
-    pc_good pc = true -> sig_ok f = true -> recv_fine pc f c -> not_stripped pc f c ->
+    pc_good pc = true -> sig_ok f = true -> no_self_param f = true -> recv_fine pc f c -> not_stripped pc f c ->
     c03_values_bad ctx f c = true ->
     assert_uses_kwargs pc f c = Ok tt ->
     (is_instance_method f = true -> wargs c <> []) ->
@@ -151,9 +155,9 @@ Section Relative.
     forallb (fun p => match p_ann p with Some a => supported ctx a | None => true end) (f_params f) = true ->
     run pc check consumes f c bd = (Raise PTypeCheckC, []).
   Proof.
-    intros pc consumes f c bd G Hsig Hrf Hns H Hauk Hinst Hprobe Hsup.
+    intros pc consumes f c bd G Hsig Hnself Hrf Hns H Hauk Hinst Hprobe Hsup.
     destruct (values_bad_in f c H) as [b [a [v [Eb [Hin [_ Hrej]]]]]].
-    eapply guard_exact; try eassumption.
+    eapply guard_exact; try eassumption; [now apply sig_full_of|].
     intros p a0 Hp Ha v0 tv e He. eapply checker_raises_ptc_only; [|exact He].
     rewrite forallb_forall in Hsup. specialize (Hsup p Hp). now rewrite Ha in Hsup.
   Qed.
@@ -222,17 +226,17 @@ Print Assumptions C03_result_guard_exact_partial.
 (* the hypotheses discharged by the C01 / C02 theorems (Proofs/CheckerTop.v via Proofs/PedanticChecker.v): `run1` is the
    call protocol over the REGENERATED pedantic_cfg with the checker model over the REGENERATED checker tables *)
 Theorem C03_args_guard_closed_partial : forall ctx f c bd,
-  sig_ok f = true -> recv_fine Gen.Pedantic.pedantic_cfg f c -> not_stripped Gen.Pedantic.pedantic_cfg f c ->
+  sig_ok f = true -> no_self_param f = true -> recv_fine Gen.Pedantic.pedantic_cfg f c -> not_stripped Gen.Pedantic.pedantic_cfg f c ->
   c03_values_bad ctx f c = true ->
   snd (run1 ctx f c bd) = [] /\ exists e, fst (run1 ctx f c bd) = Raise e.
 Proof.
-  intros ctx f c bd Hs Ho Hn H. unfold run1.
-  exact (C03_args_guard_partial gcfg ctx (checker1_rejects ctx) _ _ f c bd C03_cfg_good Hs Ho Hn H).
+  intros ctx f c bd Hs Hself Ho Hn H. unfold run1.
+  exact (C03_args_guard_partial gcfg ctx (checker1_rejects ctx) _ _ f c bd C03_cfg_good Hs Hself Ho Hn H).
 Qed.
 Print Assumptions C03_args_guard_closed_partial.
 
 Theorem C03_args_guard_exact_closed_partial : forall ctx f c bd,
-  sig_ok f = true -> recv_fine Gen.Pedantic.pedantic_cfg f c -> not_stripped Gen.Pedantic.pedantic_cfg f c ->
+  sig_ok f = true -> no_self_param f = true -> recv_fine Gen.Pedantic.pedantic_cfg f c -> not_stripped Gen.Pedantic.pedantic_cfg f c ->
   c03_values_bad ctx f c = true ->
   assert_uses_kwargs Gen.Pedantic.pedantic_cfg f c = Ok tt ->
   (is_instance_method f = true -> wargs c <> []) ->
@@ -240,8 +244,8 @@ Theorem C03_args_guard_exact_closed_partial : forall ctx f c bd,
   forallb (fun p => match p_ann p with Some a => supported ctx a | None => true end) (f_params f) = true ->
   run1 ctx f c bd = (Raise PTypeCheckC, []).
 Proof.
-  intros ctx f c bd Hs Ho Hn H Ha Hi Hp Hsup. unfold run1.
-  exact (C03_args_guard_exact_partial gcfg ctx (checker1_rejects ctx) (checker1_raises_ptc_only ctx) _ _ f c bd C03_cfg_good Hs Ho Hn H Ha Hi Hp Hsup).
+  intros ctx f c bd Hs Hself Ho Hn H Ha Hi Hp Hsup. unfold run1.
+  exact (C03_args_guard_exact_partial gcfg ctx (checker1_rejects ctx) (checker1_raises_ptc_only ctx) _ _ f c bd C03_cfg_good Hs Hself Ho Hn H Ha Hi Hp Hsup).
 Qed.
 Print Assumptions C03_args_guard_exact_closed_partial.
 
@@ -436,26 +440,62 @@ Example C03_defaulted_positional_repaired :
   /\ run1 ctx0 k (poscall [k_inst] [vx] []) (returns (VInt 1%Z)) = (Raise PTypeCheckC, []).
 Proof. repeat split; reflexivity. Qed.
 
-(* (model-level observation, not a theorem and not expressible with the classes the harness generates) the part of `recv_fine`
-   that is needed: a static method of a @pedantic_class that may be called positionally ("*args" in its text), reached through an
-   instance - the wrapper receives the instance, the first pass takes it for the value of the first parameter, the (bad) default
-   CPython really binds is not checked.  Same root as the open finding C04-receiver-under-varargs-static. *)
-Example C03_static_through_instance_observation :
-  let s := {| f_name := "s"; f_dotted := true; f_params := [par a_ PosOrKw (ACls (CUser [5])) (Some (VInt 5%Z)); par args_ VarPos AInt None];
-              f_bound := None; f_first_arg := Some a_; f_ret := Some AInt; f_coroutine := false; f_generator := false;
-              f_text := tflags true true false false 1; f_setter := false; f_recv := false |} in
-  let c := {| c_recv := [k_inst]; c_twin_recv := []; c_args := []; c_kwargs := [] |} in
-  recv_known s c /\ c03_values_bad ctx0 s c = true /\ snd (run1 ctx0 s c (returns (VInt 1%Z))) <> [].
+(* ---------------- outside `recv_fine`: the first pass counts only a receiver called self ---------------- *)
+Definition AK := ACls (CUser [5]).                      (* the class of the receiver k_inst *)
+(* a static method of a @pedantic_class that may be called positionally ("*args" in its text), reached through an instance: the
+   wrapper receives the instance, the first pass takes it for the value of the first parameter, the (bad) default CPython really
+   binds is never checked: @staticmethod def s(a: K = 5, *args: int); k.s() runs the body with a = 5 *)
+Definition s_through_instance : fn :=
+  {| f_name := "s"; f_dotted := true; f_params := [par a_ PosOrKw AK (Some (VInt 5%Z)); par args_ VarPos AInt None];
+     f_bound := None; f_first_arg := Some a_; f_ret := Some AInt; f_coroutine := false; f_generator := false;
+     f_text := tflags true true false false 1; f_setter := false; f_recv := false |}.
+Theorem C03_static_through_instance_refuted : exists f c bd,
+  sig_ok f = true /\ no_self_param f = true /\ recv_known f c /\ not_stripped Gen.Pedantic.pedantic_cfg f c
+  /\ c03_values_bad ctx0 f c = true /\ fst (run1 ctx0 f c bd) = Ok (VInt 1%Z) /\ snd (run1 ctx0 f c bd) <> [].
 Proof.
-  split; [right; left; repeat split; try reflexivity; intros; discriminate|]. split; [reflexivity|]. vm_compute. discriminate.
+  exists s_through_instance, {| c_recv := [k_inst]; c_twin_recv := []; c_args := []; c_kwargs := [] |}, (returns (VInt 1%Z)).
+  split; [reflexivity|]. split; [reflexivity|]. split; [right; left; repeat split; try reflexivity; intros; discriminate|].
+  split; [intros E; vm_compute in E; discriminate|]. repeat split; try reflexivity. vm_compute. discriminate.
 Qed.
+Print Assumptions C03_static_through_instance_refuted.
+
+(* an instance method hidden behind another decorator (@pedantic @deco def m(self, a: K, *args: str)): getfullargspec of the
+   wrapper shows no `self`, the first pass starts at the receiver and takes IT for a: k.m('x') runs the body with a = 'x' *)
+Definition m_hidden : fn :=
+  {| f_name := "m"; f_dotted := true;
+     f_params := [bound_param self_name; par a_ PosOrKw AK None; par args_ VarPos AStrC None];
+     f_bound := None; f_first_arg := None; f_ret := Some AInt; f_coroutine := false; f_generator := false;
+     f_text := tflags true false false true 2; f_setter := false; f_recv := true |}.
+Theorem C03_hidden_method_receiver_refuted : exists f c bd,
+  sig_ok f = true /\ no_self_param f = true /\ not_stripped Gen.Pedantic.pedantic_cfg f c
+  /\ c03_values_bad ctx0 f c = true /\ fst (run1 ctx0 f c bd) = Ok (VInt 1%Z) /\ snd (run1 ctx0 f c bd) <> [].
+Proof.
+  exists m_hidden, (poscall [k_inst] [vx] []), (returns (VInt 1%Z)).
+  split; [reflexivity|]. split; [reflexivity|]. split; [intros E; vm_compute in E; discriminate|].
+  repeat split; try reflexivity. vm_compute. discriminate.
+Qed.
+Print Assumptions C03_hidden_method_receiver_refuted.
+
+(* ---------------- without `no_self_param` ---------------- *)
+(* @pedantic def f(a: int, self: str): FunctionCall removes every parameter called "self" from the parameters it checks
+   (params_without_self filters by NAME): f(a=1, self=5) runs the body *)
+Theorem C03_parameter_named_self_refuted : exists f c bd,
+  sig_ok f = true /\ no_self_param f = false /\ recv_consistent f c /\ not_stripped Gen.Pedantic.pedantic_cfg f c
+  /\ c03_values_bad ctx0 f c = true /\ fst (run1 ctx0 f c bd) = Ok (VInt 1%Z) /\ snd (run1 ctx0 f c bd) <> [].
+Proof.
+  exists (func "f" [par a_ PosOrKw AInt None; par self_name PosOrKw AStrC None] plain_text),
+         (kwcall [] [(a_, VInt 1%Z); (self_name, VInt 5%Z)]), (returns (VInt 1%Z)).
+  split; [reflexivity|]. split; [reflexivity|]. split; [right; left; repeat split; reflexivity|].
+  split; [intros _ E; elim E; reflexivity|]. repeat split; try reflexivity. vm_compute. discriminate.
+Qed.
+Print Assumptions C03_parameter_named_self_refuted.
 
 (* ---------------- the hypotheses are satisfiable / the model really rejects ---------------- *)
 Example C03_guards_satisfiable :
-  sig_ok f_plain = true /\ recv_consistent f_plain (kwcall [] [(a_, vx)]) /\ c03_values_bad ctx0 f_plain (kwcall [] [(a_, vx)]) = true
+  sig_ok f_plain = true /\ no_self_param f_plain = true /\ recv_consistent f_plain (kwcall [] [(a_, vx)]) /\ c03_values_bad ctx0 f_plain (kwcall [] [(a_, vx)]) = true
   /\ assert_uses_kwargs Gen.Pedantic.pedantic_cfg f_plain (kwcall [] [(a_, vx)]) = Ok tt
   /\ run1 ctx0 f_plain (kwcall [] [(a_, vx)]) (returns (VInt 1%Z)) = (Raise PTypeCheckC, []).
-Proof. split; [reflexivity|]. split; [right; left; repeat split; reflexivity|]. repeat split; reflexivity. Qed.
+Proof. split; [reflexivity|]. split; [reflexivity|]. split; [right; left; repeat split; reflexivity|]. repeat split; reflexivity. Qed.
 
 Example C03_default_checked :
   c03_args_bad ctx0 (func "f" [par a_ PosOrKw AInt (Some vx)] plain_text) (kwcall [] []) = true
